@@ -18,6 +18,7 @@ def one(sid, tier):
     if meta.get("status") in ("not_adopted", "neutralised"):
         return sid, "skipped:" + meta["status"], {"reason": meta.get("status_reason", "")[:120]}
     checks = meta.get("check_with") or [prop]
+    tier = meta.get("tier", tier)       # a change that only the thorough tier catches reliably says so in its meta.json
     wt = f"/tmp/eql_seedcheck_{sid}"
     sh("git", "-C", "/repo", "worktree", "remove", "--force", wt)
     r = sh("git", "-C", "/repo", "worktree", "add", "--detach", wt, "HEAD")
